@@ -413,6 +413,10 @@ def join(a: AVal, b: AVal) -> AVal:
         return b.but(note="optional")
     if isinstance(b, Const) and b.v is None and isinstance(a, TV) and not a.is_py and a.note in ("", "optional", "clone"):
         return a.but(note="optional")
+    if isinstance(a, Const) and a.v is None and isinstance(b, TV) and not b.is_py:
+        return OptV(b)  # a tensor or None (`buf: Tensor | None = None`, filled on first use): narrowed by `is None` tests
+    if isinstance(b, Const) and b.v is None and isinstance(a, TV) and not a.is_py:
+        return OptV(a)
     if isinstance(a, Const) and isinstance(b, TV):
         ta = const_to_tv(a)
         return join(ta, b) if isinstance(ta, TV) else Unk(f"join of {a.v!r} with a value")
